@@ -163,6 +163,13 @@ func runEntry(entry string, data []byte, profile string, del sim.Delivery, opts 
 			if err == nil && idx != nil {
 				useIndex(idx, probeKeys)
 			}
+		case "insertionunmarshal":
+			ii := index.NewInsertionIndex()
+			err := ii.Unmarshal(src.(io.Reader))
+			note(err)
+			if err == nil {
+				useIndex(ii, probeKeys)
+			}
 		case "indexreadfrom":
 			idx, err := index.ReadFrom(src.(io.Reader))
 			note(err)
@@ -359,6 +366,9 @@ func runC09Case(t *Trace, l *Layout, data []byte, st *Stats) *Violation {
 	res.alloc = ms1.TotalAlloc - ms0.TotalAlloc
 	st.Steps += int64(res.calls)
 	loc := ms.Entry + "@" + mutLocus(l, ms.Muts)
+	if ms.Entry == "insertionunmarshal" && len(ms.Muts) > 0 {
+		loc = ms.Entry + "@" + ms.Muts[0].Kind // the medium is the serialised index, not a CAR image
+	}
 	if res.panicV != nil {
 		if be, ok := res.panicV.(sim.BudgetExceeded); ok {
 			return viol("medium/nontermination/"+loc, "%s made %d source calls on a %d-byte input without finishing: %v", ms.Entry, be.Calls, len(data), be)
@@ -559,6 +569,14 @@ func RunC09(t *Trace, st *Stats) *Violation {
 		if t.Extra != nil && t.Extra["limit"] != nil {
 			return c09LimitCase(t, l, st)
 		}
+		if t.Extra != nil && t.Extra["insertion_serialised"] == true {
+			ser := insertionSerialised(l)
+			if ser == nil {
+				return nil
+			}
+			sl := &Layout{Spec: l.Spec, Image: ser, Payload: &RefPayload{}}
+			return runC09Case(t, sl, sl.ApplyMuts(ms.Muts), st)
+		}
 		return runC09Case(t, l, c09Data(t, l), st)
 	}
 	r := RunRng(t.Seed, "C09", "medium-enum", t.Run)
@@ -618,8 +636,52 @@ func RunC09(t *Trace, st *Stats) *Violation {
 			}
 		}
 	}
+	// the serialised form of the insertion index (an exported parser that index.ReadFrom does not reach):
+	// every truncation, hostile record counts, a flipped bit in every byte
+	if ser := insertionSerialised(l); ser != nil {
+		sl := &Layout{Spec: l.Spec, Image: ser, Payload: &RefPayload{}}
+		var ims [][]Mut
+		for off := 0; off < len(ser); off++ {
+			ims = append(ims, []Mut{{Kind: "trunc", Off: int64(off)}}, []Mut{{Kind: "flip", Off: int64(off), Bit: r.Intn(8)}})
+		}
+		for _, v := range []uint64{0, 1, 2, 0xff, 0x7f} {
+			for b := 0; b < 8; b++ {
+				ims = append(ims, []Mut{{Kind: "set", Off: int64(b), Val: v}})
+			}
+		}
+		for _, m := range ims {
+			pt := t.Clone()
+			pt.Medium.All = false
+			pt.Medium.Muts, pt.Medium.Entry, pt.Medium.Profile = m, "insertionunmarshal", Pick(r, []string{sim.ProfR, sim.ProfRB})
+			pt.Medium.Del = sim.Delivery{ErrAt: -1}
+			pt.Medium.Opts = ReadOpts{}
+			pt.Medium.Choices = ""
+			pt.Extra = map[string]any{"insertion_serialised": true}
+			st.Evals++
+			v := runC09Case(pt, sl, sl.ApplyMuts(m), st)
+			st.Fault(m[0].Kind, 1)
+			st.Mark("c09", "insertionunmarshal", m[0].Kind, pt.Medium.Profile, "")
+			st.Probe("c09:entry=insertionunmarshal")
+			if v != nil && report(pt, v) {
+				return first
+			}
+		}
+	}
 	st.Sample(map[string]any{"image": ms.Image, "media": len(muts), "entries": c09Entries})
 	return first
+}
+
+// insertionSerialised marshals the insertion index of the valid image (nil when it cannot be built).
+func insertionSerialised(l *Layout) []byte {
+	ii := index.NewInsertionIndex()
+	if err := carv2.LoadIndex(ii, bytes.NewReader(l.Image), carv2.ZeroLengthSectionAsEOF(true), carv2.StoreIdentityCIDs(true)); err != nil {
+		return nil
+	}
+	var buf bytes.Buffer
+	if _, err := ii.Marshal(&buf); err != nil {
+		return nil
+	}
+	return buf.Bytes()
 }
 
 // c09Data is the medium of a case: the corrupted image, or only its index region for index.ReadFrom.
